@@ -1197,7 +1197,7 @@ func checkC06(c *Ctx, r *Report) {
 	r.Assumptions = []string{"Go channels are FIFO"}
 	ro := c.roles(r)
 	if c.checkAsyncSemantics(r, ro, "C06.async-values") {
-		r.Decide([]string{"C06.policy:", "C06.nonblocking:", "C06.anchor:", "C06.consumer:"}, nil, "the queueing logger evaluated under scripted schedules: conservation, order, policies, Stop")
+		r.Decide([]string{"C06.policy:", "C06.nonblocking:", "C06.anchor:", "C06.consumer:", "C06.capacity:"}, nil, "the queueing logger evaluated under scripted schedules: conservation, order, policies, Stop")
 	}
 	a := c.asyncInfo(ro, r)
 	if a == nil {
@@ -1252,6 +1252,9 @@ func checkC06(c *Ctx, r *Report) {
 			nWorker++
 		case recvNamed(s.fn) == a.T && s.kind == "select-recv":
 			nProd++
+		case s.kind == "select-recv" && c.reach(a.Append)[s.fn] && unexportedHelper(s.fn):
+			// the non-blocking removal of the overflow policy, in an unexported helper (a queue type's poll) the producer path runs
+			nProd++
 		default:
 			bad = append(bad, fmt.Sprintf("additional receiver of the buffer in %s at %s", fname(s.fn), s.pos))
 		}
@@ -1295,7 +1298,7 @@ func checkC06(c *Ctx, r *Report) {
 	evSend, rawSend := false, false
 	for _, root := range []*ssa.Function{a.Append, a.Write} {
 		for f := range c.reach(root) {
-			if recvNamed(f) != a.T {
+			if recvNamed(f) != a.T && !(unexportedHelper(f) && (c.inModule(f) || (f.Origin() != nil && c.inModule(f.Origin()))) && recvNamed(f) != nil && !c.isLifecycleType(recvNamed(f))) {
 				continue
 			}
 			eachInstr(f, func(in ssa.Instruction) {
@@ -1590,7 +1593,7 @@ func checkC05(c *Ctx, r *Report) {
 	r.Assumptions = []string{"channel FIFO: a marker sent after item x is received after x", "(*os.File).Close releases the descriptor"}
 	ro := c.roles(r)
 	if c.checkAsyncSemantics(r, ro, "C05.async-values") {
-		r.Decide([]string{"C05.worker:", "C05.worker-exit:", "C05.stop-signal:", "C05.anchor:async-worker"}, nil, "the queueing logger evaluated under scripted schedules: conservation, order, policies, Stop")
+		r.Decide([]string{"C05.worker:", "C05.worker-exit:", "C05.stop-signal:", "C05.anchor:async-worker", "C05.start:"}, nil, "the queueing logger evaluated under scripted schedules: conservation, order, policies, Stop")
 	}
 	fileAppenderDecisions(r, c.checkFileAppenderSemantics(r, ro, "C05.file-values"))
 	for tn, ok := range c.checkRollingLoggerSemantics(r, ro, "C05.rolling-values") {
@@ -2629,4 +2632,32 @@ func copySource(call *ssa.Call) (ssa.Value, bool) {
 		}
 	}
 	return nil, false
+}
+
+// unexportedHelper: the function is not part of the package's API (unexported itself, or a method of an unexported type).
+func unexportedHelper(f *ssa.Function) bool {
+	o := f.Object()
+	if f.Origin() != nil {
+		o = f.Origin().Object()
+	}
+	if o == nil {
+		return true // a function literal
+	}
+	if !o.Exported() {
+		return true
+	}
+	if nt := recvNamed(f); nt != nil {
+		return !nt.Obj().Exported()
+	}
+	if f.Origin() != nil {
+		if nt := recvNamed(f.Origin()); nt != nil {
+			return !nt.Obj().Exported()
+		}
+	}
+	return false
+}
+
+// isLifecycleType: the named type has Start and Stop methods (a logger or appender of its own, not a helper type).
+func (c *Ctx) isLifecycleType(nt *types.Named) bool {
+	return nt != nil && c.method(nt, "Start") != nil && c.method(nt, "Stop") != nil
 }
